@@ -425,9 +425,54 @@ class WorldB:
         for meth in ("transform", "deriv", "deriv2", "deriv3", "inverse"):
             for arr in B_ARRAYS:
                 evs.append((meth, arr))
+        # "the first grid it sees": transforming a whole 1D grid, and the public setter of the scale
+        evs += [("grid", "10"), ("grid", "5"), ("grid", "30"), ("setb", "x4"), ("setb", "x29")]
         return evs
 
+    def _apply_grid_or_setb(self, ev):
+        from grid.onedgrid import UniformInteger
+
+        kind, name = ev
+        b_before = self.tf.b
+        with warnings.catch_warnings():
+            warnings.simplefilter("ignore")
+            with np.errstate(all="ignore"):
+                if kind == "setb":
+                    x = B_ARRAYS[name].copy()
+                    self.tf.set_maximum_parameter_b(x)
+                    seen = float(np.max(x))
+                    out = None
+                else:
+                    rule = UniformInteger(int(name))
+                    pts, wts = np.array(rule.points, dtype=float), np.array(rule.weights, dtype=float)
+                    out = self.tf.transform_1d_grid(rule)
+                    seen = float(np.max(pts))
+                    if not (np.array_equal(rule.points, pts) and np.array_equal(rule.weights, wts)):
+                        self.violations.append((f"B:{self.clsname}:grid:argument-modified", "transform_1d_grid modified the rule", {}))
+        self.ncalls += 1
+        if self.b_model is None:
+            self.b_model = seen
+        if self.tf.b is None or float(self.tf.b) != float(self.b_model):
+            self.violations.append((f"B:{self.clsname}:b-not-set-once", f"scale b is {self.tf.b} after {ev}; the set-once rule gives "
+                                    f"{self.b_model} (b before the call: {b_before})", {"b": repr(self.tf.b), "expected": self.b_model}))
+            return None
+        if out is None:
+            return ("setb", float(self.tf.b))
+        fresh = self.cls(self.rmin, self.rmax, b=self.b_model)
+        with warnings.catch_warnings():
+            warnings.simplefilter("ignore")
+            with np.errstate(all="ignore"):
+                rp, rw = fresh.transform(pts.copy()), fresh.deriv(pts.copy()) * wts
+        gp, gw = np.asarray(out.points, dtype=float), np.asarray(out.weights, dtype=float)
+        if gp.shape != rp.shape or not (np.allclose(gp, rp, rtol=1e-14, atol=0, equal_nan=True)
+                                         and np.allclose(np.abs(gw), np.abs(rw), rtol=1e-14, atol=0, equal_nan=True)):
+            self.violations.append((f"B:{self.clsname}:grid:differs-from-explicit-b", f"transform_1d_grid(UniformInteger({name})) after "
+                                    f"this history differs from a fresh {self.clsname}(b={self.b_model})", {}))
+        return _h(np.concatenate([gp, gw]))
+
     def apply(self, ev):
+        if ev[0] in ("grid", "setb"):
+            return self._apply_grid_or_setb(ev)
         meth, name = ev
         x = B_ARRAYS[name].copy()
         if meth == "inverse":
@@ -572,7 +617,8 @@ def run(ctx):
         a_runs = [dict(p, depth=5 if i == 0 else 3) for i, p in enumerate(pairs)]
         depth_b, depth_c = 5, 6
     else:
-        a_runs = [dict(p, depth=3 if i == 0 else 2, extra=(i == 0)) for i, p in enumerate(pairs)]
+        # (depth 3 for every pair: build a, build b, edit a, observe b needs three events before the observation)
+        a_runs = [dict(p, depth=3, extra=(i == 0)) for i, p in enumerate(pairs)]
         depth_b, depth_c = 4, 5
     for r in a_runs:
         depth = r.pop("depth")
